@@ -10,6 +10,9 @@ VARIANTS = [("mem", {}), ("mem2", {"solution_method": "newton"}), ("mem2", {"sol
             ("mem2", {"solution_method": "approximate"})]
 
 
+ITERATES_IN_KERNEL = "mem2:newton"          # the one variant whose iteration runs inside a numba kernel compiled per array layout
+
+
 def vname(v):
     return v[0] + ("" if not v[1] else ":" + v[1]["solution_method"])
 
@@ -145,14 +148,20 @@ def run(tier):
                         Ds = estimate_directional_distribution(q[0:1].copy(), q[1:2].copy(), q[2:3].copy(), q[3:4].copy(), d, method=v[0], **v[1])[0]
                         # numba compiles one kernel per array layout (C / Fortran / 1-D), with fast-math: the last bits differ between
                         # kernels, and for moments on which the solver does not converge the last bits decide the output. An element whose
-                        # own result changes visibly when its moments are perturbed by 1e-13 has no result to compare with.
-                        qp = q * (1.0 + 1e-13)
-                        Dp = estimate_directional_distribution(qp[0:1].copy(), qp[1:2].copy(), qp[2:3].copy(), qp[3:4].copy(), d, method=v[0], **v[1])[0]
+                        # own result changes visibly when its moments are perturbed by 1e-13 has no result to compare with.  Only the
+                        # iteration inside a compiled kernel is concerned (mem2:newton): the other variants are closed forms or are
+                        # solved element by element through scipy with identical arguments, and are compared as tightly as before.
                         scale_ = max(float(np.nanmax(np.abs(Ds))), 1e-300) if np.any(np.isfinite(Ds)) else 1.0
-                        if not np.allclose(Dp, Ds, rtol=0, atol=1e-9 * scale_, equal_nan=True):
-                            unstable[0] += 1
-                            continue
-                        if not np.allclose(Db[t, x, f], Ds, rtol=0, atol=1e-7 * scale_, equal_nan=True):
+                        if vname(v) == ITERATES_IN_KERNEL:
+                            qp = q * (1.0 + 1e-13)
+                            Dp = estimate_directional_distribution(qp[0:1].copy(), qp[1:2].copy(), qp[2:3].copy(), qp[3:4].copy(), d, method=v[0], **v[1])[0]
+                            if not np.allclose(Dp, Ds, rtol=0, atol=1e-9 * scale_, equal_nan=True):
+                                unstable[0] += 1
+                                continue
+                            same_ = np.allclose(Db[t, x, f], Ds, rtol=0, atol=1e-7 * scale_, equal_nan=True)
+                        else:
+                            same_ = np.allclose(Db[t, x, f], Ds, rtol=1e-10, atol=1e-13, equal_nan=True)
+                        if not same_:
                             bad = (t, x, f)
             if bad is not None:
                 chk.violation("batch-independence:%s" % vname(v), "an element of a batch does not get the result it gets alone",
@@ -203,16 +212,27 @@ def run(tier):
                 continue
             evals += 2 * nt * nf
             for t in range(nt):
-                # (rows whose own result changes visibly under a 1e-13 perturbation of the moments are skipped: see above)
-                ap = arr[t:t + 1] * (1.0 + 1e-13)
-                pert = estimate_directional_distribution(ap[:, :, 0].copy(), ap[:, :, 1].copy(), ap[:, :, 2].copy(), ap[:, :, 3].copy(), d, method=v[0], **v[1])[0]
-                scale_ = max(float(np.nanmax(np.abs(alone[t]))), 1e-300) if np.any(np.isfinite(alone[t])) else 1.0
-                if not np.allclose(pert, alone[t], rtol=0, atol=1e-9 * scale_, equal_nan=True):
-                    unstable[0] += 1
-                    continue
-                if not np.allclose(Db[t], alone[t], rtol=0, atol=1e-7 * scale_, equal_nan=True):
+                # (bins whose own result changes visibly under a 1e-13 perturbation of the moments are skipped: see above)
+                kernel = vname(v) == ITERATES_IN_KERNEL
+                if kernel:
+                    ap = arr[t:t + 1] * (1.0 + 1e-13)
+                    pert = estimate_directional_distribution(ap[:, :, 0].copy(), ap[:, :, 1].copy(), ap[:, :, 2].copy(), ap[:, :, 3].copy(), d, method=v[0], **v[1])[0]
+                hit = None
+                for f_ in range(nf):
+                    scale_ = max(float(np.nanmax(np.abs(alone[t][f_]))), 1e-300) if np.any(np.isfinite(alone[t][f_])) else 1.0
+                    if kernel:
+                        if not np.allclose(pert[f_], alone[t][f_], rtol=0, atol=1e-9 * scale_, equal_nan=True):
+                            unstable[0] += 1
+                            continue
+                        same_ = np.allclose(Db[t][f_], alone[t][f_], rtol=0, atol=1e-7 * scale_, equal_nan=True)
+                    else:
+                        same_ = np.allclose(Db[t][f_], alone[t][f_], rtol=1e-10, atol=1e-13, equal_nan=True)
+                    if not same_:
+                        hit = f_
+                        break
+                if hit is not None:
                     chk.violation("batch-independence:neighbours:%s" % vname(v), "a member of a batch of similar spectra does not get the result it gets alone",
-                                  dict(ctx, member=t, max_abs_diff=float(np.nanmax(np.abs(Db[t] - alone[t]))), peak=float(np.nanmax(alone[t]))))
+                                  dict(ctx, member=t, frequency_index=hit, max_abs_diff=float(np.nanmax(np.abs(Db[t][hit] - alone[t][hit]))), peak=float(np.nanmax(alone[t][hit]))))
                     break
     # spectrum level: E round trip, variance, carried variables
     for v in VARIANTS:
@@ -261,7 +281,7 @@ def run(tier):
             if not (okgrid and oke):
                 chk.violation("grid-N:%s" % vname(v), "as_frequency_direction_spectrum(N=%d): not the uniform N-point direction grid / energy not conserved" % N,
                               {"N": N, "variant": vname(v), "n_directions": int(len(dd)), "e_back": s2.as_frequency_spectrum().e.values.tolist(), "e": s1.e.values.tolist()})
-    chk.set("batch_elements_skipped_because_their_own_result_is_chaotic_under_a_1e-13_perturbation", unstable[0])
+    chk.set("mem2_newton_batch_elements_skipped_because_their_own_result_is_chaotic_under_a_1e-13_perturbation", unstable[0])
     chk.set("evaluations", evals)
     chk.set("distinct_nontrivial", len(distinct))
     chk.assume("the specification decides the quantifier domain (rational lattice inside the open unit disc, incl. unrealisable quadruples), the abstract "
